@@ -547,7 +547,6 @@ impl Space for SubCmd {
         // ---- run the tool
         let o = rn.run(&args);
         r.count("processes", 1);
-        r.count(&format!("tool_ms_{}", t.fam), o.ms);
         r.nontrivial = !o.timed_out;
         if o.timed_out {
             r.count("timeouts", 1);
